@@ -64,7 +64,9 @@ def send_close(I, conn, chan):
 
 CALLS = {"conn.sendData": send_data, "conn.sendExtendedData": send_ext, "conn.sendClose": send_close,
          "SSHChannel.startWriting": lambda I, ch: ctx().emit("startWriting", ch),
-         "SSHChannel.stopWriting": lambda I, ch: ctx().emit("stopWriting", ch)}
+         "SSHChannel.stopWriting": lambda I, ch: ctx().emit(
+             "stopWriting", ch, (ctx().ghost.get("sent"), ctx().ghost.get("esent")), {},
+             NSView({k: snapshot_of(o) for k, o in ctx().ghost.get("$objs", {}).items()}))}
 
 
 def mkchan(c, **kw):
@@ -118,7 +120,19 @@ class Write(Contract):
 
     # (whether stopWriting() is also called when the window is exhausted exactly is not part of the property:
     # the harmless canary below checks that the contract stays silent on it)
-    ensures = dict(sent_plus_buffered_is_the_stream=_stream, close_only_when_drained=_close)
+    def _hint(S):
+        # stopWriting() is application code: it may write() more or ask for the close.  The overflow must already be in
+        # the buffer when it runs, or that write overtakes it / that close goes out before it (seeded change C36-3)
+        # ... and this call's share of the window must be used and debited already: the hint may spend window itself
+        # (found on the unchanged tree: write(b"01") with window 1 and a hint that calls writeExtended lost b"0";
+        # repaired in /repo 271588c)
+        n = vmin(L(S.i.data), S.i.window)
+        return band(*[band(veq(e.snap.ch.buf, S.i.data[S.i.window:]), L(e.snap.ch.buf) > 0, e.snap.ch.areWriting == 0,
+                           veq(e.args[0], S.i.data[:n]), e.snap.ch.remoteWindowLeft == S.i.window - n)
+                      for e in S.trace if e.name == "stopWriting"])
+
+    ensures = dict(sent_plus_buffered_is_the_stream=_stream, close_only_when_drained=_close,
+                   overflow_buffered_before_the_application_is_told_to_stop=_hint)
     canaries = [("write(self, data[offset : offset + rmp])", "write(self, data[offset:])", "within_max_packet"),
                 ("self.remoteWindowLeft -= top", "self.remoteWindowLeft -= len(data) + 1", "sent_plus_buffered_is_the_stream"),
                 ("if top > self.remoteWindowLeft:", "if top >= self.remoteWindowLeft:", None)]
@@ -181,7 +195,14 @@ class WriteExtended(Contract):
         should = band(S.i.closing, L(S.i.data) <= S.i.window)
         return veq(closes == 1, should) if is_sym(should) else closes == (1 if should else 0)
 
-    ensures = dict(sent_plus_buffered_is_the_stream=_stream, close_only_when_drained=_close)
+    def _hint(S):
+        n = vmin(L(S.i.data), S.i.window)
+        return band(*[band(len(e.snap.ch.extBuf) == 1, e.snap.ch.extBuf[0][0] == 7, veq(e.snap.ch.extBuf[0][1], S.i.data[S.i.window:]),
+                           e.snap.ch.areWriting == 0, veq(e.args[1], S.i.data[:n]), e.snap.ch.remoteWindowLeft == S.i.window - n)
+                      for e in S.trace if e.name == "stopWriting"])
+
+    ensures = dict(sent_plus_buffered_is_the_stream=_stream, close_only_when_drained=_close,
+                   overflow_buffered_before_the_application_is_told_to_stop=_hint)
     canaries = [("self.remoteWindowLeft -= self.remoteMaxPacket", "pass", "preserved"),
                 ("data[: self.remoteMaxPacket]", "data[: self.remoteMaxPacket + 1]", "within_max_packet")]
 
@@ -457,8 +478,76 @@ class Histories(Bounded):
         return None
 
 
+
+class ReentrantHint(Bounded):
+    prop = "C36"
+    title = "an application that writes more / asks for the close from inside the stopWriting() hint"
+    scope = ("remote window 0..3, max packet 1..2; one write or writeExtended of 1..6 bytes (0..2 bytes already sent "
+             "before); stopWriting() reacts by {nothing, write(T) once, writeExtended(1, U) once, loseConnection()}; "
+             "window then granted in steps of 1/2/5 until drained; exhaustive")
+    functions = ["SSHChannel.write", "SSHChannel.writeExtended", "SSHChannel.addWindowBytes", "SSHChannel.loseConnection"]
+
+    def cases(self, tier, rng):
+        for window in (0, 1, 2, 3):
+            for rmp in (1, 2):
+                for first in ("write", "ext"):
+                    for n in range(1, 7):
+                        for reaction in ("nothing", "write", "ext", "close"):
+                            for step in (1, 2, 5):
+                                yield (window, rmp, first, n, reaction, step)
+
+    def check(self, case):
+        window, rmp, first, n, reaction, step = case
+        conn = Conn()
+        ch = channel.SSHChannel(remoteWindow=window, remoteMaxPacket=rmp, conn=conn)
+        ch.startWriting = lambda: None
+        want = {"D": b"", "E1": b""}
+        reacted = []
+        payload = b"0123456789"[:n]
+
+        def hint():
+            if reacted:
+                return
+            reacted.append(True)
+            if reaction == "write":
+                want["D"] += b"T"
+                ch.write(b"T")
+            elif reaction == "ext":
+                want["E1"] += b"U"
+                ch.writeExtended(1, b"U")
+            elif reaction == "close":
+                ch.loseConnection()
+
+        ch.stopWriting = hint
+        key = "D" if first == "write" else "E1"
+        want[key] += payload  # registered before the call: what the hint adds comes after it in the stream
+        try:
+            if first == "write":
+                ch.write(payload)
+            else:
+                ch.writeExtended(1, payload)
+            for _ in range(20):
+                ch.addWindowBytes(step)
+        except Exception as e:
+            return "raised %r" % (e,)
+        for k in want:
+            got = b"".join(d for (t, d) in conn.log if t == k)
+            if got != want[k]:
+                return "stream %s: sent %r, written %r (log %r)" % (k, got, want[k], conn.log)
+        for (t, d) in conn.log:
+            if t != "CLOSE" and not (1 <= len(d) <= rmp):
+                return "packet of %d bytes with max packet %d" % (len(d), rmp)
+        tags = [t for (t, d) in conn.log]
+        if reaction == "close" and reacted:
+            if tags.count("CLOSE") != 1 or tags[-1] != "CLOSE":
+                return "CLOSE not exactly once at the end: %r" % (conn.log,)
+        elif "CLOSE" in tags:
+            return "CLOSE sent though nobody asked: %r" % (tags,)
+        return None
+
+
 CONTRACTS = [Write, WriteExtended, LoseConnection, AddWindowBytes, ChannelData]
-BOUNDED = [Histories]
+BOUNDED = [Histories, ReentrantHint]
 NOTES = dict(
     explanation="Chunking loops proved with inductive invariants (packet size, window, stream equation); CLOSE only "
                 "with nothing outstanding proved at the call-out; receiver acceptance decision proved; histories bounded.",
@@ -472,7 +561,8 @@ MANIFEST = dict(
     text="SSHChannel.write and writeExtended are proved with inductive invariants over their real chunking loops for "
          "symbolic data, window and max-packet: every chunk is 1..remoteMaxPacket bytes, what is sent is exactly the "
          "prefix the window allows and the rest is buffered in order, the window counter decreases by what was sent "
-         "and stays >= 0; loseConnection / addWindowBytes hand CLOSE to the connection only when nothing is buffered "
+         "and stays >= 0, and the stopWriting() hint (application code that may write or close) runs only when the "
+         "overflow is buffered and this call's share of the window is sent and debited; loseConnection / addWindowBytes hand CLOSE to the connection only when nothing is buffered "
          "or still being replayed (obligation at the call-out) and replay extended items in order; "
          "ssh_CHANNEL_DATA accepts exactly data within the advertised window and max packet, delivers exactly the "
          "payload, refuses anything larger, and re-advertises when the window falls below half. Sender histories are "
